@@ -9,7 +9,9 @@ resolves every global through find_class.
 import ast
 
 from ..model import dotted, unparse, norm, walk_no_nested
-from ..rulelib import Ctx, reaching_defs, value_assigned, short
+from ..paths import PathExec
+from ..symeval import show
+from ..rulelib import Ctx, reaching_defs, value_assigned, short, resolve_copies
 
 DOCUMENTED = {'copy_reg': {'_reconstructor'}, '__builtin__': {'object'}}
 UNPICKLE_NAMES = {'loads', 'load', 'Unpickler', '_Unpickler', '_loads', '_load'}
@@ -74,7 +76,10 @@ def run(check):
                       % (unparse(par), where))
         continue
       # the pickle module itself handed out as an unpickler object
-      if f is gu and isinstance(par, ast.Return):
+      up = par
+      while isinstance(up, ast.IfExp):
+        up = getattr(up, '_parent', None)
+      if f is gu and isinstance(up, ast.Return):
         continue          # judged by R-C13-guarded-return
       r_d.violate('pickle module used as an unpickler object', f if f is not None else where, par if par is not None else n,
                   'the pickle module is passed around as a value in %s (`%s`): whoever calls .loads on it bypasses the '
@@ -91,12 +96,12 @@ def run(check):
         for kw in c.keywords:
           if kw.arg == 'insecure':
             arg = kw.value
+        vals = resolve_copies(f, arg) if arg is not None else []
         if arg is None:
           r_d.ok('%s: get_unpickler() with the secure default' % f.qualname, f.loc(c))
-        elif (dotted(arg) or '').endswith('settings.USE_INSECURE_UNPICKLER') or dotted(arg) == 'settings.USE_INSECURE_UNPICKLER':
-          r_d.ok('%s: insecure=settings.USE_INSECURE_UNPICKLER' % f.qualname, f.loc(c))
-        elif isinstance(arg, ast.Constant) and arg.value in (False, None, 0):
-          r_d.ok('%s: insecure=False' % f.qualname, f.loc(c))
+        elif vals and all(isinstance(v, ast.AST) and ((dotted(v) or '').endswith('settings.USE_INSECURE_UNPICKLER') or
+                                                      (isinstance(v, ast.Constant) and v.value in (False, None, 0))) for v in vals):
+          r_d.ok('%s: insecure=settings.USE_INSECURE_UNPICKLER (or False)' % f.qualname, f.loc(c))
         else:
           r_d.violate('insecure unpickler requested', f, c, 'get_unpickler is called with insecure=`%s`, not with the '
                       'USE_INSECURE_UNPICKLER setting' % unparse(arg))
@@ -114,7 +119,12 @@ def run(check):
             srcs = [rhs for (am, af, tgt, rhs) in T.attr_assigns.get(recv.attr, [])
                     if af is not None and af.cls is not None and repo.is_subclass(f.cls, af.cls) or
                     (af is not None and af.cls is f.cls)]
-            good = srcs and all(isinstance(r, ast.Call) and (dotted(r.func) or '').split('.')[-1] == 'get_unpickler' for r in srcs)
+            srcs_f = [(af, rhs) for (am, af, tgt, rhs) in T.attr_assigns.get(recv.attr, [])
+                      if af is not None and af.cls is not None and repo.is_subclass(f.cls, af.cls) or
+                      (af is not None and af.cls is f.cls)]
+            good = bool(srcs_f) and all(
+              isinstance(r, ast.AST) and isinstance(r, ast.Call) and (dotted(r.func) or '').split('.')[-1] == 'get_unpickler'
+              for (af, rhs) in srcs_f for r in resolve_copies(af, rhs))
             if good:
               r_d.ok('%s: %s comes from get_unpickler()' % (f.qualname, unparse(recv)), f.loc(c))
             else:
@@ -136,12 +146,23 @@ def run(check):
   r_g = check.rule('R-C13-guarded-return', 5, 'globals are returned only past both allow-list checks, by exactly the checked names')
   g = cx.cfg(gu)
   p_ins = gu.params[0] if gu.params else 'insecure'
-  for rn in [n for n in g.nodes if n.kind == 'stmt' and isinstance(n.ast, ast.Return)]:
-    v = rn.ast.value
+  def insecure_true(a, lab, b):
+    return isinstance(lab, tuple) and lab[0] == 'T' and isinstance(lab[1], ast.Name) and lab[1].id == p_ins
+
+  def judge_return(rn, v, under_param_true):
+    if v is not None and isinstance(v, ast.IfExp):
+      t = v.test
+      neg = False
+      while isinstance(t, ast.UnaryOp) and isinstance(t.op, ast.Not):
+        neg, t = not neg, t.operand
+      is_param = isinstance(t, ast.Name) and t.id == p_ins and reaching_defs(g, p_ins, rn) == [g.entry]
+      judge_return(rn, v.orelse if neg else v.body, under_param_true or is_param)
+      judge_return(rn, v.body if neg else v.orelse, under_param_true)
+      return
     if v is not None and _is_pickle_module(T, v, gu.module, gu):
-      ok = rn not in g.reach([g.entry], normal_only=True, removed_edge=lambda a, lab, b: isinstance(lab, tuple) and lab[0] == 'T'
-                             and isinstance(lab[1], ast.Name) and lab[1].id == p_ins)
-      if ok and reaching_defs(g, p_ins, rn) == [g.entry]:
+      ok = under_param_true or (rn not in g.reach([g.entry], normal_only=True, removed_edge=insecure_true) and
+                                reaching_defs(g, p_ins, rn) == [g.entry])
+      if ok:
         r_g.ok('get_unpickler returns the raw pickle module only when `insecure` is true', gu.loc(rn.ast))
       else:
         r_g.violate('raw pickle returned unconditionally', gu, rn.ast, 'get_unpickler can return the raw pickle module although '
@@ -150,6 +171,10 @@ def run(check):
       r_g.ok('get_unpickler returns SafeUnpickler otherwise', gu.loc(rn.ast))
     else:
       r_g.violate('unknown unpickler returned', gu, rn.ast, 'get_unpickler returns `%s`' % (unparse(v) if v is not None else 'None'))
+  for rn in [n for n in g.nodes if n.kind == 'stmt' and isinstance(n.ast, ast.Return)]:
+    vals = resolve_copies(gu, rn.ast.value) if rn.ast.value is not None else [None]
+    for v in vals:
+      judge_return(rn, v if isinstance(v, ast.AST) or v is None else None, False)
   variants = []
   for sc in safe_classes:
     fc = sc.methods.get('find_class')
@@ -166,77 +191,96 @@ def run(check):
       continue
     pm, pn = params
     own = fc.params[0]
-
-    def mod_pass(a, lab, b, pm=pm, own=own):
-      if not isinstance(lab, tuple):
-        return False
-      pol, t = lab
-      if isinstance(t, ast.Compare) and len(t.ops) == 1 and isinstance(t.left, ast.Name) and t.left.id == pm and \
-         (dotted(t.comparators[0]) or '').endswith('PICKLE_SAFE'):
-        return (isinstance(t.ops[0], ast.NotIn) and pol == 'F') or (isinstance(t.ops[0], ast.In) and pol == 'T')
-      return False
-
-    def name_pass(a, lab, b, pm=pm, pn=pn):
-      if not isinstance(lab, tuple):
-        return False
-      pol, t = lab
-      if isinstance(t, ast.Compare) and len(t.ops) == 1 and isinstance(t.left, ast.Name) and t.left.id == pn:
-        c = t.comparators[0]
-        if isinstance(c, ast.Subscript) and (dotted(c.value) or '').endswith('PICKLE_SAFE') and isinstance(c.slice, ast.Name) \
-           and c.slice.id == pm:
-          return (isinstance(t.ops[0], ast.NotIn) and pol == 'F') or (isinstance(t.ops[0], ast.In) and pol == 'T')
-      return False
     label = 'find_class[%s]' % (sc.guard or 'py3')
-    for rn in [n for n in gf.nodes if n.kind == 'stmt' and isinstance(n.ast, ast.Return)]:
-      by_mod = rn not in gf.reach([gf.entry], removed_edge=mod_pass, normal_only=True)
-      by_name = rn not in gf.reach([gf.entry], removed_edge=name_pass, normal_only=True)
-      params_intact = reaching_defs(gf, pm, rn) == [gf.entry] and reaching_defs(gf, pn, rn) == [gf.entry]
-      if by_mod and by_name and params_intact:
-        r_g.ok('%s: return dominated by `module in PICKLE_SAFE` and `name in PICKLE_SAFE[module]`' % label, fc.loc(rn.ast))
-      else:
-        r_g.violate('%s returns an unchecked global' % label, fc, rn.ast, 'find_class can return a global without both '
-                    'allow-list membership checks having passed on the module and name *parameters* (module check: %s, name '
-                    'check: %s, parameters unmodified: %s)' % (by_mod, by_name, params_intact))
-      # what is returned is getattr(sys.modules[module], name)
-      v = rn.ast.value
-      shape_ok = False
-      if isinstance(v, ast.Call) and isinstance(v.func, ast.Name) and v.func.id == 'getattr' and len(v.args) == 2 and \
-         isinstance(v.args[1], ast.Name) and v.args[1].id == pn:
-        base = v.args[0]
-        if isinstance(base, ast.Name):
-          rds = reaching_defs(gf, base.id, rn)
-          vals = [value_assigned(d, base.id) for d in rds if d is not gf.entry]
-          shape_ok = bool(vals) and len(vals) == len(rds) and all(
-            isinstance(x, ast.AST) and unparse(x).replace(' ', '') in ('sys.modules[%s]' % pm, '__import__(%s)' % pm,
-                                                                       'importlib.import_module(%s)' % pm) for x in vals)
+    PM, PN = ('param', pm), ('param', pn)
+    safe_terms = _allowlist_terms(sc, own)
+
+    def is_safe(t):
+      return t in safe_terms
+
+    def names_of_module(t):
+      """t denotes PICKLE_SAFE[module] / PICKLE_SAFE.get(module) for the module parameter"""
+      if not isinstance(t, tuple):
+        return False
+      if t[0] == 'sub' and is_safe(t[1]) and t[2] == PM:
+        return True
+      if t[0] == 'meth' and t[1] == 'get' and is_safe(t[2]) and t[3:] in ((PM,), (PM, ('const', None))):
+        return True
+      if t[0] == 'call' and t[1].endswith('.get') and t[2:] in ((PM,), (PM, ('const', None))) and \
+         any(s_[0] == 'attr' and t[1] == '%s.%s.get' % (s_[1][1], s_[2]) for s_ in safe_terms if s_[0] == 'attr' and s_[1][0] == 'param'):
+        return True
+      return False
+
+    def passed(hit):
+      """(module check passed, name check passed) on this path"""
+      mod_ok = name_ok = False
+      for pol, t, a, n in hit.conds:
+        if pol not in ('T', 'F') or not isinstance(t, tuple):
+          continue
+        if t[0] in ('in', 'notin'):
+          isin = (t[0] == 'in') == (pol == 'T')
+          if t[1] == PM and is_safe(t[2]) and isin:
+            mod_ok = True
+          if t[1] == PN and names_of_module(t[2]) and isin:
+            name_ok = True
+        elif t[0] == 'cmp' and t[1] in ('Is', 'IsNot', 'Eq', 'NotEq') and t[3] == ('const', None) and names_of_module(t[2]):
+          # names = PICKLE_SAFE.get(module); names is not None  <=>  module in PICKLE_SAFE
+          notnone = (t[1] in ('IsNot', 'NotEq')) == (pol == 'T')
+          if notnone:
+            mod_ok = True
+        elif t[0] == 'truth' and names_of_module(t[1]) and pol == 'T':
+          mod_ok = True
+      return mod_ok, name_ok
+
+    px = PathExec(cx, fc)
+    rets = [n for n in gf.nodes if n.kind == 'stmt' and isinstance(n.ast, ast.Return)]
+    imps = [n for n in gf.nodes if any((isinstance(c.func, ast.Name) and c.func.id in ('__import__', 'import_module')) or
+                                       (dotted(c.func) or '').endswith('import_module') for c in gf.calls(n))]
+    MODS = (('sub', ('attr', ('param', 'sys'), 'modules'), PM), ('call', '__import__', PM), ('call', 'importlib.import_module', PM),
+            ('call', 'import_module', PM))
+    seen_ret = 0
+    for hit in px.run(set(rets) | set(imps)):
+      mod_ok, name_ok = passed(hit)
+      n = hit.node
+      if n in imps and not mod_ok:
+        c = [c for c in gf.calls(n) if 'import' in unparse(c.func)][0]
+        r_g.violate('%s imports an unchecked module' % label, fc, c, 'find_class imports `%s` before the module passed the '
+                    'allow-list check' % unparse(c))
+      elif n in imps and n not in rets:
+        c = [c for c in gf.calls(n) if 'import' in unparse(c.func)][0]
+        arg = hit.term(c.args[0], px) if c.args else None
+        if arg == PM:
+          r_g.ok('%s: import only after the module check' % label, fc.loc(c))
         else:
-          shape_ok = unparse(base).replace(' ', '') == 'sys.modules[%s]' % pm
-      if shape_ok:
-        r_g.ok('%s: returns getattr(sys.modules[module], name) for the checked pair' % label, fc.loc(rn.ast))
+          r_g.violate('%s imports something else than the checked module' % label, fc, c, 'find_class imports `%s`, which is not the '
+                      '`%s` parameter that passed the allow-list' % (unparse(c), pm))
+      if n not in rets:
+        continue
+      seen_ret += 1
+      if not (mod_ok and name_ok):
+        r_g.violate('%s returns an unchecked global' % label, fc, n.ast, 'find_class can return a global without both '
+                    'allow-list membership checks having passed on the module and name *parameters* (module check: %s, name '
+                    'check: %s)' % (mod_ok, name_ok))
+        continue
+      r_g.ok('%s: return only past `module in PICKLE_SAFE` and `name in PICKLE_SAFE[module]`' % label, fc.loc(n.ast))
+      t = hit.term(n.ast.value, px) if n.ast.value is not None else ('const', None)
+      if isinstance(t, tuple) and t[0] == 'call' and t[1] == 'getattr' and len(t) == 4 and t[3] == PN and t[2] in MODS:
+        r_g.ok('%s: returns getattr(sys.modules[module], name) for the checked pair' % label, fc.loc(n.ast))
       else:
-        r_g.violate('%s returns something else than the checked global' % label, fc, rn.ast, 'find_class returns `%s`: not '
+        r_g.violate('%s returns something else than the checked global' % label, fc, n.ast, 'find_class returns `%s`: not '
                     'getattr(sys.modules[module], name) of exactly the (module, name) that passed the allow-list (e.g. a dotted '
-                    'path walked attribute by attribute reaches object.__subclasses__)' % (unparse(v) if v is not None else 'None'))
-    for n in gf.nodes:
-      for c in gf.calls(n):
-        if isinstance(c.func, ast.Name) and c.func.id in ('__import__', 'import_module') or \
-           (dotted(c.func) or '').endswith('import_module'):
-          if n in gf.reach([gf.entry], removed_edge=mod_pass, normal_only=True):
-            r_g.violate('%s imports an unchecked module' % label, fc, c, 'find_class imports `%s` before the module passed the '
-                        'allow-list check' % unparse(c))
-          else:
-            r_g.ok('%s: import only after the module check' % label, fc.loc(c))
-    # fail outcomes raise UnpicklingError
-    for (a, lab, b) in gf.test_edges(lambda pol, t, n: True):
-      if isinstance(lab[1], ast.Compare) and 'PICKLE_SAFE' in unparse(lab[1]):
-        fail = not (mod_pass(a, lab, b) or name_pass(a, lab, b))
-        if fail:
-          reach_ret = [rn for rn in gf.nodes if rn.kind == 'stmt' and isinstance(rn.ast, ast.Return) and
-                       rn in gf.reach([b], normal_only=True)]
-          raises = [rn for rn in gf.reach([b], normal_only=True) if rn.kind == 'stmt' and isinstance(rn.ast, ast.Raise)]
-          if reach_ret or not raises:
-            r_g.violate('%s: failed check does not reject' % label, fc, lab[1], 'when `%s` fails, find_class does not raise'
-                        % unparse(lab[1]))
+                    'path walked attribute by attribute reaches object.__subclasses__)' % show(t))
+    if px.truncated:
+      r_g.cannot_decide('%s: too many paths' % label)
+    if not seen_ret:
+      r_g.violate('%s never returns a global' % label, fc, None, 'no path through find_class returns', construct='return getattr')
+    # a path that falls off the end returns None instead of rejecting
+    for hit in px.run([gf.exit]):
+      last = [x for x in hit.trail if x.ast is not None]
+      if last and not isinstance(last[-1].ast, ast.Return):
+        r_g.violate('%s: failed check does not reject' % label, fc, last[-1].ast, 'find_class can end without returning a checked '
+                    'global or raising UnpicklingError')
+        break
   if len(variants) == 2:
     a, b = variants
     na = [norm(s) for s in a[1].node.body]
@@ -248,8 +292,14 @@ def run(check):
 
   # ------------------------------------------------------------------ allow-list
   r_a = check.rule('R-C13-allowlist-frozen', 2, 'PICKLE_SAFE is a literal, never modified, within the documented allow-list')
+  alias_names = {'PICKLE_SAFE'}
   for sc in safe_classes:
     lit = sc.attrs.get('PICKLE_SAFE')
+    if isinstance(lit, ast.Name):
+      # the class attribute is bound to a module-level literal: judge that literal (and watch its name for writes)
+      gvals = util.globals.get(lit.id, [])
+      alias_names.add(lit.id)
+      lit = gvals[0] if len(gvals) == 1 else None
     if not isinstance(lit, ast.Dict):
       r_a.violate('allow-list not literal', sc.key, lit, 'SafeUnpickler.PICKLE_SAFE is not a literal dict', construct='PICKLE_SAFE')
       continue
@@ -286,14 +336,23 @@ def run(check):
       if isinstance(n, (ast.Assign, ast.AugAssign)):
         for t in (n.targets if isinstance(n, ast.Assign) else [n.target]):
           for x in ast.walk(t):
-            if isinstance(x, ast.Attribute) and x.attr == 'PICKLE_SAFE':
+            if isinstance(x, ast.Attribute) and x.attr in alias_names:
               tgt = n
-            if isinstance(x, ast.Name) and x.id == 'PICKLE_SAFE' and not isinstance(getattr(n, '_parent', None), ast.ClassDef):
-              tgt = n
+            if isinstance(x, ast.Name) and x.id in alias_names and isinstance(x.ctx, ast.Store):
+              par_ = getattr(n, '_parent', None)
+              first_def = (isinstance(par_, ast.ClassDef) and x.id == 'PICKLE_SAFE') or \
+                (isinstance(par_, ast.Module) and m is util and x.id != 'PICKLE_SAFE' and x is t)
+              if not first_def:
+                tgt = n
+            if isinstance(x, ast.Name) and x.id in alias_names and isinstance(x.ctx, ast.Load) and x is not t:
+              tgt = n           # PICKLE_SAFE[...] = ... / PICKLE_SAFE[m].x = ...
       elif isinstance(n, ast.Call) and isinstance(n.func, ast.Attribute) and n.func.attr in (
-          'add', 'update', 'setdefault', 'pop', 'clear', '__setitem__', 'discard', 'remove') and 'PICKLE_SAFE' in unparse(n.func.value):
+          'add', 'update', 'setdefault', 'pop', 'clear', '__setitem__', 'discard', 'remove', 'popitem', 'append', 'extend') and \
+          any((isinstance(x, ast.Name) and x.id in alias_names) or (isinstance(x, ast.Attribute) and x.attr in alias_names)
+              for x in ast.walk(n.func.value)):
         tgt = n
-      elif isinstance(n, ast.Delete) and 'PICKLE_SAFE' in unparse(n):
+      elif isinstance(n, ast.Delete) and any((isinstance(x, ast.Name) and x.id in alias_names) or
+                                             (isinstance(x, ast.Attribute) and x.attr in alias_names) for x in ast.walk(n)):
         tgt = n
       if tgt is not None:
         writes.append((m, tgt))
@@ -334,3 +393,13 @@ def run(check):
       else:
         r_h.violate('find_global not hooked', loads, None, 'the cPickle SafeUnpickler.loads does not set find_global to find_class',
                     construct='pickle_obj.find_global = cls.find_class')
+
+
+def _allowlist_terms(sc, own):
+  """terms (sa/symeval.py) that denote the allow-list inside find_class of class ``sc``."""
+  out = {('attr', ('param', own), 'PICKLE_SAFE'), ('attr', ('param', sc.name), 'PICKLE_SAFE'),
+         ('attr', ('param', 'self'), 'PICKLE_SAFE'), ('attr', ('param', 'cls'), 'PICKLE_SAFE')}
+  lit = sc.attrs.get('PICKLE_SAFE')
+  if isinstance(lit, ast.Name):
+    out.add(('param', lit.id))        # class attribute bound to a module-level allow-list
+  return out
